@@ -26,7 +26,9 @@ func c12FaultProfile(tier string) *eng.Profile {
 		Cfgs: []core.Cfg{{Mode: core.KV, Seg: 100}, {Mode: core.KV, Sync: true, Seg: 100}, {Mode: core.KV, RW: core.M, Start: core.M, Sync: true, Seg: 100},
 			{Mode: core.K, Sync: true, Seg: 100}, {Mode: core.S, Sync: true, Seg: 100}},
 		Ops: ops, Obs: mixedObsFor, Depth: 2}
-	p.Run = func(p *eng.Profile, cfg core.Cfg, hist []core.Op, leaf *eng.Leaf) { eng.FaultLeaf(p, cfg, hist, leaf, "C12") }
+	p.Run = func(p *eng.Profile, cfg core.Cfg, hist []core.Op, leaf *eng.Leaf) {
+		eng.FaultLeaf(p, cfg, hist, leaf, "C12")
+	}
 	if tier == "thorough" {
 		p.Depth = 3
 	}
@@ -48,7 +50,9 @@ func init() {
 	c09CrashPart = func(r *Run) {
 		// every process-crash image of C10's and C16's workloads must open: the same enumeration,
 		// judged on the error returned by Open only
-		onlyOpen := func(v eng.Violation) bool { return v.Kind == "open-error" || v.Kind == "second-open-error" }
+		onlyOpen := func(v eng.Violation) bool {
+			return v.Kind == "open-error" || v.Kind == "second-open-error" || v.Kind == "post-recovery-open-error"
+		}
 		r.ExploreFiltered(c10Profile(r.Tier), onlyOpen, "C10")
 		r.ExploreFiltered(c16Profile(r.Tier), onlyOpen, "C16")
 		// the same crash images recovered with a StartFileLoadingMode different from the RWMode
